@@ -24,3 +24,15 @@ impl FragSet {
     #[verifier::external_body]
     pub fn contains(&self, x: &ResolvedFragmentId) -> (r: bool) ensures r == self@.contains(*x) { unimplemented!() }
 }
+// BTreeSet<TypeId>
+#[verifier::external_body]
+pub struct TypeIdSet { _p: core::marker::PhantomData<()> }
+impl View for TypeIdSet { type V = ISet<TypeId>; uninterp spec fn view(&self) -> ISet<TypeId>; }
+impl TypeIdSet {
+    #[verifier::external_body]
+    pub fn new() -> (r: TypeIdSet) ensures r@ == ISet::<TypeId>::empty() { unimplemented!() }
+    #[verifier::external_body]
+    pub fn insert(&mut self, x: TypeId) -> (fresh: bool) ensures final(self)@ == old(self)@.insert(x), fresh == !old(self)@.contains(x) { unimplemented!() }
+    #[verifier::external_body]
+    pub fn contains(&self, x: &TypeId) -> (r: bool) ensures r == self@.contains(*x) { unimplemented!() }
+}
